@@ -640,29 +640,71 @@ def m_str_eq(ex, callee, args):
     return r if callee.endswith('::eq') else b_not(r)
 
 
+class CharSet:
+    """pattern that is a set of (ASCII) chars: `['a', 'b']`, `&[char]`"""
+    def __init__(self, chars):
+        self.chars = chars
+
+
 def _pat(ex, p):
-    """pattern argument: &str / &String / char -> bytes|SStr"""
+    """pattern argument: &str / &String / char / [char; N] -> bytes | SStr | CharSet"""
     p = deref_all(p)
     if isinstance(p, BV):
         if isinstance(p.v, int):
             return chr(p.v).encode('utf-8')
         raise Unsupported('symbolic char pattern')
+    if isinstance(p, (Arr, VecV)) and all(isinstance(c, BV) and isinstance(c.v, int) and c.v < 0x80 for c in p.items):
+        return CharSet([c.v for c in p.items])
     return as_str(p)
+
+
+def _byte_in(b, cs):
+    return b_or(*[S._eqb(b, c) for c in cs.chars])
+
+
+def _first_in(s, cs):
+    bs, ln, cap = S.parts(s)
+    if cap == 0:
+        return False
+    nonempty = (ln >= 1) if isinstance(ln, int) else z3.UGE(ln, z3.BitVecVal(1, 64))
+    return b_and(nonempty, _byte_in(bs[0], cs))
+
+
+def _last_in(s, cs):
+    bs, ln, cap = S.parts(s)
+    opts = []
+    for L in (range(1, cap + 1) if not isinstance(ln, int) else ([ln] if ln >= 1 else [])):
+        opts.append(b_and(S._len_eq(ln, L), _byte_in(bs[L - 1], cs)))
+    return b_or(*opts)
+
+
+def _any_in(s, cs):
+    bs, ln, cap = S.parts(s)
+    return b_or(*[b_and((i < ln) if isinstance(ln, int) else z3.UGT(ln, z3.BitVecVal(i, 64)), _byte_in(bs[i], cs)) for i in range(cap)])
 
 
 @model(r'^core::str::<impl str>::contains::<')
 def m_contains(ex, callee, args):
-    return S.s_contains(as_str(args[0]), _pat(ex, args[1]))
+    p = _pat(ex, args[1])
+    if isinstance(p, CharSet):
+        return _any_in(as_str(args[0]), p)
+    return S.s_contains(as_str(args[0]), p)
 
 
 @model(r'^core::str::<impl str>::starts_with::<')
 def m_starts_with(ex, callee, args):
-    return S.s_prefix(as_str(args[0]), _pat(ex, args[1]))
+    p = _pat(ex, args[1])
+    if isinstance(p, CharSet):
+        return _first_in(as_str(args[0]), p)
+    return S.s_prefix(as_str(args[0]), p)
 
 
 @model(r'^core::str::<impl str>::ends_with::<')
 def m_ends_with(ex, callee, args):
-    return S.s_suffix(as_str(args[0]), _pat(ex, args[1]))
+    p = _pat(ex, args[1])
+    if isinstance(p, CharSet):
+        return _last_in(as_str(args[0]), p)
+    return S.s_suffix(as_str(args[0]), p)
 
 
 @model(r'^core::str::<impl str>::len$|^std::string::String::len$')
@@ -888,6 +930,18 @@ def m_strip(ex, callee, args):
     s = as_str(args[0])
     p = _pat(ex, args[1])
     pre = 'strip_prefix' in callee
+    if isinstance(p, CharSet):
+        from .models_chars import sub_sstr, len_minus
+        bs, ln, cap = S.parts(s)
+        if pre:
+            if ex.branch(_first_in(s, p)):
+                return some(StrV(sub_sstr(s, 1, len_minus(ln, 1))))
+            return none()
+        if ex.branch(_last_in(s, p)):
+            if isinstance(s, bytes):
+                return some(StrV(s[:-1]))
+            return some(StrV(S.SStr(list(bs), len_minus(ln, 1), 'strip_suffix')))
+        return none()
     if isinstance(s, bytes) and isinstance(p, bytes):
         if pre and s.startswith(p):
             return some(StrV(s[len(p):]))
